@@ -204,7 +204,19 @@ fn child_race(args: &Args) {
                 let _g = dispatch::set_default(&disp);
                 chaos::arm(t, cseed, intensity, true);
                 barrier.wait();
-                for (sp, enters, _) in w {
+                for (k, (sp, enters, _)) in w.into_iter().enumerate() {
+                    // every fourth handle is entered through the collector API and dropped WHILE
+                    // entered: the exit may then be what releases the span's last reference -
+                    // racing with the drops of the span's other handles on other threads
+                    if (k + t) % 4 == 3 {
+                        if let Some(id) = sp.id() {
+                            disp.enter(&id);
+                            drop(sp);
+                            std::hint::spin_loop();
+                            disp.exit(&id);
+                            continue;
+                        }
+                    }
                     for _ in 0..enters {
                         let e = sp.enter();
                         std::hint::spin_loop();
@@ -242,7 +254,12 @@ fn child_race(args: &Args) {
         let entries = std::mem::take(&mut *log.entries.lock().unwrap());
         let errs = std::mem::take(&mut *log.errors.lock().unwrap());
         let closes: Vec<(u8, u64)> = entries.iter().filter_map(|e| if let interp::LEv::Close { layer, serial, .. } = e { Some((*layer, *serial)) } else { None }).collect();
-        let mut problem: Option<String> = errs.first().map(|(_, e)| e.clone());
+        // (an on_exit that arrives after the close callbacks is recorded finding F28: counted)
+        let f28n = errs.iter().filter(|(_, e)| e.starts_with("EXIT-AFTER-CLOSE")).count();
+        if f28n > 0 {
+            out.count("f28_on_exit_after_close_callbacks", f28n as u64);
+        }
+        let mut problem: Option<String> = errs.iter().find(|(_, e)| !e.starts_with("EXIT-AFTER-CLOSE")).map(|(_, e)| e.clone());
         for serial in 1..=nsp as u64 {
             for layer in 0..2u8 {
                 let n = closes.iter().filter(|c| **c == (layer, serial)).count();
